@@ -3,6 +3,7 @@
 from .mutants import M, M2
 
 WS = 'falcon/asgi/ws.py'
+APP = 'falcon/asgi/app.py'
 
 # ------------------------------------------------------------------ R1
 M('c18-await-in-receive-window', 'C18', 'R1', WS,
@@ -217,3 +218,56 @@ M('c18-ws-no-bypass-for-zero', 'C18', 'R4', WS,
   "        if max_receive_queue > 0:", "        if max_receive_queue >= 0:")
 M('c18-ws-bypass-inverted', 'C18', 'R4', WS,
   "        if max_receive_queue > 0:", "        if max_receive_queue <= 0:")
+
+# ------------------------------------------------------------------ R5 (session-ending paths reach close() -> stop(); shared with C17 R3)
+# `closed` is already true / `ready` already false once only the CLIENT side is gone, while the pump may still be
+# parked on the capacity wait: a path that skips close() on those properties leaves the task running.
+M('c18-cleanup-skipped-when-closed', 'C18', 'R5', APP,
+  """    async def _ws_cleanup_on_error(self, ws: WebSocket) -> None:
+""", """    async def _ws_cleanup_on_error(self, ws: WebSocket) -> None:
+        if ws.closed:
+            return
+
+""", also=('C17',))
+M('c18-disconnected-handler-skips-closed', 'C18', 'R5', APP,
+  """            '[FALCON] WebSocket client disconnected with code %i', error.code
+        )
+        await self._ws_cleanup_on_error(ws)
+""", """            '[FALCON] WebSocket client disconnected with code %i', error.code
+        )
+        if not ws.closed:
+            await self._ws_cleanup_on_error(ws)
+""", also=('C17',))
+M('c18-handle-ws-close-only-if-not-closed', 'C18', 'R5', APP,
+  """            await on_websocket(req, web_socket, **params)
+            await web_socket.close()
+""", """            await on_websocket(req, web_socket, **params)
+            if not web_socket.closed:
+                await web_socket.close()
+""", also=('C17',))
+M('c18-http-error-handler-close-only-if-ready', 'C18', 'R5', APP,
+  """                error,
+                code,
+            )
+            await ws.close(code)
+""", """                error,
+                code,
+            )
+            if ws.ready or ws.unaccepted:
+                await ws.close(code)
+""", also=('C17',))
+
+# ------------------------------------------------------------------ R6 (the "pump ended" conclusion of receive())
+M('c18-receive-end-on-task-done', 'C18', 'R6', WS,
+  "            if not pop_message_waiter.done():", "            if self._pump_task.done():")
+M('c18-receive-end-on-task-done-or-unnotified', 'C18', 'R6', WS,
+  "            if not pop_message_waiter.done():", "            if self._pump_task.done() or not pop_message_waiter.done():")
+M('c18-receive-end-on-disconnect-flag', 'C18', 'R6', WS,
+  "            if not pop_message_waiter.done():", "            if self.client_disconnected:")
+M('c18-receive-disconnect-shortcut-on-entry', 'C18', 'R6', WS,
+  """        while not self._messages:
+            # ----""", """        if self.client_disconnected:
+            return {'type': EventType.WS_DISCONNECT, 'code': self.client_disconnected_code}
+
+        while not self._messages:
+            # ----""")
